@@ -269,9 +269,17 @@ class Entity(Block):
 
                 if _entity_instantiation_handler is not None:
                     _entity_instantiation_handler(info)
+            except BaseException:
+                # the architecture was rejected, a later compilation
+                # of this entity has to evaluate it again
+                info.instantiated = None
+                raise
             finally:
-                assert len(_block_stack) == 1
+                # restore the stack before checking it, otherwise a rejected
+                # design leaves its blocks on the stack of later compilations
+                current_block_stack = _block_stack
                 _block_stack = prev_block_stack
+                assert len(current_block_stack) == 1
 
         if _cohdl_instantiate_only:
             return
